@@ -136,6 +136,10 @@ def run(ctx):
             if res.kind == "map" and res.ok:
                 check_program(ctx, w, res.phenotype, "map")
                 ctx.nontrivial = True
+            if res.kind == "map" and res.error == "step-cap" and w.rep_kind == "stack":
+                ctx.violate("C01/liveness/stack/mapping-does-not-return",
+                            f"mapping a stack genotype read more than {w.gene_read_cap} genes without returning a program or failing "
+                            f"(gene_length={max(w.gene_length, 4)}, failures_limit={w.failures_limit})")
             for idx in res.new:
                 if w.rep_kind == "tree":
                     check_program(ctx, w, w.pool[idx], res.kind)
@@ -148,6 +152,10 @@ def run(ctx):
                     elif m.ok:
                         check_program(ctx, w, m.phenotype, f"{res.kind}+map")
                         ctx.nontrivial = True
+                    elif m.error == "step-cap" and w.rep_kind == "stack":
+                        ctx.violate("C01/liveness/stack/mapping-does-not-return",
+                                    f"mapping a stack genotype obtained by {res.kind} read more than {w.gene_read_cap} genes without returning a "
+                                    f"program or failing (gene_length={max(w.gene_length, 4)}, failures_limit={w.failures_limit})")
         ctx.sample["ops"] = ops[:20]
         if H.draw(3) == 2:
             search_stratum(ctx, w)
